@@ -1,9 +1,11 @@
 import SFV.Lemmas.ProvGraph
+import SFV.Lemmas.ProvFuel
 /-! # C18 — recovery re-runs only failed jobs and producers of lost data
 
 Theorems about the model of `ProvenanceGraph.build_graph` (`SFV/Model/ProvGraph.lean`): the set of tokens the recovery
 workflow regenerates. `stop t` = the token's data is available or it is the job token of a job that is already being
-recovered. Quantified over every provenance relation `deps` (no acyclicity needed for these statements), every
+recovered. Quantified over every provenance relation `deps` (no acyclicity needed for the partial-correctness statements; fuel
+sufficiency needs tokens `< N` and no self-dependency), every
 availability map and every list of input tokens. What is abstracted: tokens are ids; `is_available` is a flag (the
 real one looks at the data manager and the file system — exercised by the recovery runs of the correspondence check);
 the mapping from tokens to the steps/jobs that are re-executed (`GraphMapper.get_step_ids`) is checked end to end on
@@ -77,6 +79,40 @@ theorem build_graph_raises_iff_no_previous (inp : In) (s : BSt) (t : Nat) (q : L
     visit inp s t q = none ↔ (inp.stop t = false ∧ inp.deps t = []) := by
   unfold visit
   cases hs : inp.stop t <;> cases hd : inp.deps t <;> simp
+
+/-- **fuel sufficiency** (the model's loop bound is not a restriction): for a provenance relation over tokens `< N` without
+    self-dependencies (every DAG) and duplicate-free inputs, `N` iterations suffice — `build_graph` either returns a graph or
+    raises for a lost token without dependees; each token is popped at most once (`Lemmas/ProvFuel.lean`) -/
+theorem build_graph_fuel_sufficient (inp : In) (N : Nat) (inputs : List Nat) (hb : Bounded inp N) (hi : Irrefl inp)
+    (hn : inputs.Nodup) (hlt : ∀ i, i ∈ inputs → i < N) :
+    (∃ s, buildGraph inp N inputs = .ok s) ∨ (∃ t, buildGraph inp N inputs = .noPrev t) := by
+  have hf : FInv N (start inputs) :=
+    { infoNodup := by simp [start], queueNodup := by simpa [start] using hn, disjoint := by simp [start],
+      infoLt := by simp [start], queueLt := by simpa [start] using hlt }
+  have := bfs_fuel hb hi N (start inputs) hf (by simp [start])
+  unfold buildGraph
+  cases hres : bfs inp N (start inputs) with
+  | ok s => exact Or.inl ⟨s, rfl⟩
+  | noPrev t => exact Or.inr ⟨t, rfl⟩
+  | outOfFuel => exact absurd hres this
+
+/-- with enough fuel the answer does not depend on the fuel: together with `build_graph_closure` the result on a DAG is THE
+    backward closure — stated as: any two successful runs have the same node membership -/
+theorem build_graph_nodes_fuel_independent (inp : In) (inputs : List Nat) (f1 f2 : Nat) (s1 s2 : BSt)
+    (h1 : buildGraph inp f1 inputs = .ok s1) (h2 : buildGraph inp f2 inputs = .ok s2) (n : Nat) :
+    n ∈ s1.nodes ↔ n ∈ s2.nodes := by
+  rw [build_graph_closure inp inputs f1 s1 h1, build_graph_closure inp inputs f2 s2 h2]
+
+/-- without the hypothesis: a token that depends on itself is enqueued again and again — two iterations do not suffice for
+    two tokens -/
+theorem self_dependency_needs_more_fuel :
+    (match buildGraph ⟨fun t => if t = 1 then [1, 0] else [], fun t => t == 0⟩ 2 [1] with
+      | .outOfFuel => true | _ => false) = true := by decide
+
+/-- non-vacuity of `build_graph_fuel_sufficient`: the diamond below with exactly `N = 5` iterations -/
+example : (match buildGraph ⟨fun t => match t with | 4 => [2, 3] | 2 => [1] | 3 => [0] | 1 => [0] | _ => [],
+                             fun t => t == 1 || t == 3 || t == 0⟩ 5 [4] with
+    | .ok s => s.nodes == [4, 2, 3, 1] | _ => false) = true := by decide
 
 /-! ### non-vacuity: a diamond with one lost branch -/
 
